@@ -121,7 +121,24 @@ class Oracle:
             if len({d[0] for d in ds}) == len(ds):
                 self.dsets[t[1]] = ds
             return None
+        if op == "nd":
+            self.arrs.pop(t[1], None)
+            self.nds = getattr(self, "nds", {})
+            self.nds[t[1]] = (t[2], [pnum(v) for v in t[3:]])
+            return None
+        if op == "ndwrite":
+            nds = getattr(self, "nds", {})
+            if t[1] in nds:
+                sh, vs = nds[t[1]]
+                vs = list(vs)
+                vs[int(t[2])] = pnum(t[3])
+                nds[t[1]] = (sh, vs)
+            return None
+        if op == "dump":
+            x = self.arrs.get(t[1])
+            return ("arr", x) if x is not None else None
         if op == "arr":
+            getattr(self, "nds", {}).pop(t[1], None)
             ds = self.dsets.get(t[2])
             if ds is None:
                 return None
@@ -137,6 +154,7 @@ class Oracle:
         exp = self.expect(t)
         if exp is not None and exp[0] == "arr":
             self.arrs[t[1]] = exp[1]
+            getattr(self, "nds", {}).pop(t[1], None)
         elif op in ("setitem", "setvalues") and exp is None:
             self.arrs.pop(t[1], None)    # unknown state after an operation without expectation
         return exp
@@ -380,6 +398,15 @@ class Oracle:
             if sh != shape:
                 return ("err",)
             vs = [pnum(v) for v in vals.split(",")] if vals else []
+            new.data = dict(zip(new.labels(), vs))
+        elif rhstok in getattr(self, "nds", {}):
+            # an ndarray object: its current value is assigned (and copied)
+            if keytok != "E":
+                return None
+            sh, vs = self.nds[rhstok]
+            shape = "-" if not x.dims else ",".join(str(len(d[3])) for d in x.dims)
+            if sh != shape:
+                return ("err",)
             new.data = dict(zip(new.labels(), vs))
         else:
             y = self.arrs.get(rhstok)
